@@ -210,7 +210,7 @@ def run(tier):
     run = Run(PROP, tier, 'other')
     h = build()
     S, inv, meta = facts.extract(PROP, h.src())
-    report_dropped(run, meta)
+    report_dropped(run, meta, h)
     run_specs(run, S, h, custom={'cast': check_cast})
     run.floor('roots', len(run.roots), 11)
     return run.finish(
